@@ -1,5 +1,21 @@
-"""Translator specs for pydrex.core (kernels below `derivatives`)."""
+"""Translator specs for pydrex.core (kernels below `derivatives`).
+
+Fail-closed guards (translator/srcguard.py, added after the seeded change C03d): the instance lemmas tie the
+generated code to the list model at n_grains = 1, 2, 3, so (a) a module-level function of pydrex.core that is
+called from the traced code but is not in the spec list below raises (no silent inlining of a new helper kernel),
+and (b) the integer literals > 3 of the functions on the derivative path must be exactly the recorded ones
+(`SIZE_LITERALS`: the 4 of the four slip systems) -- a new one could be a block size / stride / slice bound that
+n <= 3 never crosses."""
 from symtrace import Spec, Translation
+import srcguard
+
+# {function: {integer literal (> 3): number of occurrences}} on the path below `derivatives`
+SIZE_LITERALS = {
+    "_get_slip_rates_olivine": {4: 1}, "_get_slip_invariants": {4: 1}, "_get_rotation_and_strain": {4: 1},
+}
+DERIVATIVE_PATH = ["get_crss", "derivatives", "_get_deformation_rate", "_get_slip_rate_softest",
+                   "_get_slip_rates_olivine", "_get_slip_invariants", "_get_orientation_change",
+                   "_get_strain_energy", "_get_rotation_and_strain"]
 
 
 def translations():
@@ -33,6 +49,14 @@ def translations():
              inline=["get_crss"]),
     ]
     tr = Translation(core, specs)
+    srcguard.literal_guard(core.__file__, DERIVATIVE_PATH, SIZE_LITERALS)
+    with srcguard.UnlistedCallGuard(core, DERIVATIVE_PATH):
+        _trace(tr, core)
+    return [("Gen_core", tr, core.__file__)]
+
+
+def _trace(tr, core):
+    S = "scalar"
     # get_crss itself is a table (Gen_tables); it is only inlined here.
     tr.trace_all([
         ("_get_slip_invariants", {}),
@@ -56,6 +80,5 @@ def translations():
         tr.specs["derivatives"] = spec
         tr.ensure("derivatives", {})
         del tr.specs["derivatives"]
-    return [("Gen_core", tr, core.__file__)]
 
 
